@@ -386,3 +386,24 @@ macro_rules! c02_kernel {
         });
     };
 }
+
+/// level 0 through the source hook: the private digit kernel `digit::*::carrying_mul` / `widening_mul` with all four
+/// arguments symbolic returns split(carry + current + a * b) and never overflows the double digit
+#[macro_export]
+macro_rules! c02_kernel_hook {
+    ($name:ident, $unw:expr, $m:ident, $D:ty, $DD:ty) => {
+        $crate::harness!($name, $unw, {
+            let a: $D = $crate::nd::nd();
+            let b: $D = $crate::nd::nd();
+            let carry: $D = $crate::nd::nd();
+            let current: $D = $crate::nd::nd();
+            let s = a as $DD * b as $DD + carry as $DD + current as $DD; // <= (B-1)^2 + 2(B-1) = B^2 - 1: cannot overflow
+            let (lo, hi) = bnum::verif_hooks::$m::carrying_mul(a, b, carry, current);
+            assert!(lo == s as $D && hi == (s >> <$D>::BITS) as $D, "carrying_mul == split(carry + current + a * b)");
+            let (lo, hi) = bnum::verif_hooks::$m::widening_mul(a, b);
+            let p = a as $DD * b as $DD;
+            assert!(lo == p as $D && hi == (p >> <$D>::BITS) as $D, "widening_mul == split(a * b)");
+            $crate::reach!(hi == <$D>::MAX, "maximal high digit");
+        });
+    };
+}
